@@ -126,7 +126,9 @@ def run(ctx):
             yield p, lis
 
     for p, lis in listening_paths(handler_paths(model, h_close)):
-        if lis is not True or p.outcome.kind != "return":
+        # unless the connection is known not to be listening, a close must
+        # remove its listener
+        if lis is False or p.outcome.kind != "return":
             continue
         rem = any(e["reg"][0] == "reg" and e["reg"][2] == "_listeners" and
                   e["key"] is not None and e["key"][0] == "obj"
@@ -139,10 +141,10 @@ def run(ctx):
                    "its listener registered")
     nclose = 0
     for p, lis in listening_paths(model.paths("ws:onClose")):
-        if lis is True:
+        if lis is not False:
             mb = [v for t, v in pc_truth(p.pc).items()
                   if t[0] == "obj" and t[1] == "Mailbox"]
-            if mb and mb[0] is True:
+            if not (mb and mb[0] is False):
                 nclose += 1
                 rem = any(e["reg"][0] == "reg" and e["reg"][2] == "_listeners"
                           for e, _ in all_events(p, ("reg_del",)))
